@@ -48,4 +48,16 @@ PROPS['C18'] = {
                    'raises TypeError. Tied to containers.py by differential execution + an independent oracle on the real code.',
 }
 
+PROPS['C13'] = {
+    'group': 'config',
+    'level': 'proof',
+    'explanation': 'Theorems about the model of config.py and of the lock-down code of PLSSDesc/Tract, for ALL stored configs, attribute states and keyword sets: '
+                   'effective setting = keyword if given else attribute (C13_precedence_*), a value given through .config has the same effect as the keyword '
+                   '(C13_channels), keyword beats a conflicting config, the handed-down tract config carries the effective tract settings, colon-mode and depth '
+                   'interplay characterised; unknown names raise ValueError for every line; token-level round trip for every setting value in the documented domain '
+                   '(finite sweep on the regenerated patterns/tables, ints -100..1000); the full text round trip is proved under the stated string-splitting seam '
+                   '(C13_roundtrip_partial) which is validated by differential execution. Tied to the code by regenerated tables/patterns, differential execution '
+                   '(effective settings observed by wrapping PLSSParser/TractParser) and an independent oracle on the real code.',
+}
+
 NOT_CLAIMED = {}
